@@ -65,8 +65,12 @@ class PaneBase:
     ):
         old_params = getattr(cls, '__parameters__', ())
         super().__init_subclass__(*args, **kwargs)
+        new_params = getattr(cls, '__parameters__', ())
+        if any(t.get_origin(base) is t.Generic for base in cls.__dict__.get('__orig_bases__', ())):
+            # an explicit Generic[...] declares the order of the parameters
+            old_params, new_params = new_params, old_params
         # (deduplicate: a type variable forwarded to a base and also listed in Generic[...] appears in both)
-        setattr(cls, '__parameters__', tuple(dict.fromkeys(old_params + getattr(cls, '__parameters__', ()))))
+        setattr(cls, '__parameters__', tuple(dict.fromkeys(old_params + new_params)))
 
         if rename is not None:
             if in_rename is not None or out_rename is not None:
